@@ -123,6 +123,9 @@ Fixpoint mapM {A B} (f : A -> res B) (l : list A) : res (list B) :=
   | x :: r => do y <- f x; do ys <- mapM f r; Ok (y :: ys)
   end.
 
+Definition fits_slong (z : Z) : bool :=
+  ((-9223372036854775808 <? z) && (z <? 9223372036854775808))%Z.
+
 Section WithRec.
   Variable cf : cfg.
   Variable pr : expr -> res cexp.
@@ -137,9 +140,10 @@ Section WithRec.
   Definition lit_of_dbl (bits : N) : cexp := flt_lit (dbl_sign bits) (dbl_abs bits).
   Definition lit_of_Z (z : Z) : cexp := let '(s, b) := dbl_of_Z z in flt_lit s b.
 
-  (* CodePrinter::bvisit(Integer) *)
+  (* CodePrinter::bvisit(Integer): a floating literal in float precision and when z or -z does not
+     fit a long (|z| >= 2^63) *)
   Definition int_lit (z : Z) : cexp :=
-    if fl cf then lit_of_Z z
+    if fl cf || negb (fits_slong z) then lit_of_Z z
     else match z with
          | Z0 => CInt 0
          | Zpos p => CInt (Npos p)
@@ -349,7 +353,7 @@ Section WithRec.
           end
     | EF2 code a b =>
         if is_relational code then
-          do ta <- pr a; do tb <- pr b; Ok (CBin (rel_op code) ta tb)
+          do ta <- ple a SP_Rel; do tb <- ple b SP_Rel; Ok (CBin (rel_op code) ta tb)
         else
           match lookup code str_names with
           | Some nm => do ta <- pr a; do tb <- pr b; Ok (CCall (mf nm) (CBin BComma ta tb))
